@@ -54,6 +54,70 @@ def judge(path, names, obs, out, rep):
             out.violation("C05:client-value-changed:%s:%s" % (fmt, sig_path), "%s yields a different value" % name, rep)
 
 
+GEN_TYPES = [   # (generated type, clean document, paths to the objects inside it)
+    ("Empty", {}, [[]]),
+    ("Inner", {"a": 1}, [[]]),
+    ("HoldsEmpty", {"e": {}, "l": [{}, {}]}, [[], ["e"], ["l", 1]]),
+    ("ObjRefInner", {"f": {"a": 1}}, [[], ["f"]]),
+    ("ObjOptRefInner", {"f": {"a": 1}}, [["f"]]),
+    ("ObjListRefInner", {"f": [{"a": 1}, {"a": 2}]}, [["f", 0], ["f", 1]]),
+    ("ObjAlRefInner", {"f": {"a": 1}}, [["f"]]),
+    ("ObjExRefInner", {"f": {"a": 1}}, [["f"]]),
+    ("DoubleBag", {"d": 1.5, "nested": {"x": 2.5}}, [[], ["nested"]]),
+]
+
+
+def generated_stage(out, rng):
+    """the same rule on GENERATED object types (harness/vgen, both configurations): objects without fields, nested objects,
+    objects behind optional / list / alias / external"""
+    import copy
+    docs, meta = [], {}
+    k = 0
+    for ty, clean, paths in GEN_TYPES:
+        for path in paths:
+            for names in NAMESETS:
+                payload = rng.choice(PAYLOADS)
+                doc = copy.deepcopy(clean)
+                cur = doc
+                for step in path:
+                    cur = cur[step]
+                for n in names:
+                    cur[n] = payload
+                for cfg in ("a", "b"):
+                    for d, kind in ((doc, "dirty"), (clean, "clean")):
+                        cid = "g%d" % k
+                        k += 1
+                        docs.append(json.dumps({"id": cid, "cfg": cfg, "ty": ty, "doc": json.dumps(d)}))
+                        meta[cid] = (ty, path, names, kind, cfg, json.dumps(d), json.dumps(clean))
+    res = {o["id"]: o for o in vc.ndjson(vc.harness("vgen", ["wire"], stdin="\n".join(docs) + "\n"))}
+    n = 0
+    cleans = {}
+    for cid, (ty, path, names, kind, cfg, d, clean) in meta.items():
+        o = res.get(cid)
+        if o is None or o.get("skip"):
+            raise vc.ToolError("generated type %s missing from the zoo: %s" % (ty, o))
+        if kind == "clean":
+            if "ok" not in o["server"] or "ok" not in o["client"]:
+                raise vc.ToolError("clean document %s of %s is rejected: %s" % (d, ty, o))
+            cleans[(ty, cfg)] = o["client"]["ok"]
+    for cid, (ty, path, names, kind, cfg, d, clean) in meta.items():
+        if kind == "clean":
+            continue
+        o = res[cid]
+        n += 1
+        rep = {"generated_type": ty, "config": cfg, "doc": d, "names": names, "path": path}
+        sig = "%s:%s" % (ty, "nested" if path else "top")
+        if "ok" in o["server"]:
+            out.violation("C05:generated:server-accepts:%s" % sig, "the server deserializer of generated %s accepts %s" % (ty, d[:80]), rep)
+        elif not any(nm in o["server"].get("err", "") for nm in names):
+            out.violation("C05:generated:server-error-unnamed:%s" % sig, "rejected without naming the field: %s" % o["server"].get("err", "")[:100], rep)
+        if "ok" not in o["client"]:
+            out.violation("C05:generated:client-rejects:%s" % sig, "the client deserializer of generated %s fails on %s: %s" % (ty, d[:60], o["client"].get("err", "")[:80]), rep)
+        elif o["client"]["ok"] != cleans[(ty, cfg)]:
+            out.violation("C05:generated:client-value-changed:%s" % sig, "client value %s differs from the clean document's %s" % (o["client"]["ok"][:60], cleans[(ty, cfg)][:60]), rep)
+    return n
+
+
 def run(tier, seed):
     out = vc.Outcome(PID, tier, seed, "model_checking")
     rng = vc.Rng(seed)
@@ -104,7 +168,7 @@ def run(tier, seed):
         shapes[cid] = SHAPES[j % 4]
         meta[cid] = (path, names, payload)
     text = vc.harness_parallel("vh", ["serde", "c05"], docs, nproc=6)
-    replayed = 0
+    replayed = generated_stage(out, rng)
     nontrivial = set()
     samples = []
     for obs in vc.ndjson(text):
